@@ -352,6 +352,15 @@ def run_filter_facts(L):
                  '".." => match depth.checked_sub(1)', "None => return false", "_ => depth += 1"):
         if need not in body:
             raise L.GenError(f"is_usable_pathspec: expected `{need}`")
+    # dirty_files stay within the repository that contains them (the model records nothing for them elsewhere)
+    gat = L.find_fn(src, "get_all_tracked_files", rel)
+    if "is_in_nested_repository(repo_workdir.as_deref(), &normalized_path)" not in gat:
+        raise L.GenError("get_all_tracked_files: dirty files of a nested repository are not skipped (is_in_nested_repository)")
+    hrel = FILES[0]
+    hc = L.find_fn(L.read_src(hrel), "handle_checkpoint", hrel)
+    if len(re.findall(r"dirty_files_with_absolute_keys\(", hc)) < 2:
+        raise L.GenError("handle_checkpoint: dirty_files keys are not made absolute before a request is handed to another "
+                         "repository (both the workspace loop and the cross-repository loop)")
     return foreign_all
 
 
